@@ -1,7 +1,7 @@
 """C05 — the result depends only on year, forms and input values (premises)."""
 from ..core import get_core
 from .. import corerules as R
-from ..linerules import l1_access, l2_effects
+from ..linerules import l1_access, l2_effects, l2b_shared_iterators
 from ..lines import get_analysis
 
 
@@ -18,6 +18,7 @@ def check(tree, rep, tier='quick', seed=0):
     forms = [rel for y in an.cat.years for rel in tree.form_modules(y)]
     l1_access(tree, rep)
     l2_effects(tree, rep)
+    l2b_shared_iterators(tree, rep)
     R.k6_single_value_writer(core, rep)
     R.k12_schedule_once(core, rep)
     R.k13_add_form(core, rep)            # what a form load registers does not depend on how the form was first reached
@@ -26,6 +27,8 @@ def check(tree, rep, tier='quick', seed=0):
     R.k11_input_gate(core, rep)
     R.k16_determinism(core, rep, extra_modules=forms)
     R.k18_cli_store_identity(core, rep)
+    R.k10_refusal(core, rep)             # only a declined prompt stops the questions: file and prompt stay equivalent
+    R.k11g_parser_objects_untouched(core, rep)
     R.k27_complete_diagnostics(core, rep)
     from .c17 import shared_rule
     shared_rule(an.cat, rep, rule='R17.7')
